@@ -14,7 +14,25 @@
                     <prefix bytes: count-prefixed> dlen same_data> }*k
    3  sending end to end (two nodes over TCP, shipped limits):
                   3 n { version codec(hi lo) code(hi lo) digest_len dlen }*n
-      trace:  3 k { <ids of one Response event: count-prefixed> }*k *)
+      trace:  3 k { <ids of one Response event: count-prefixed> }*k
+   4  the real event loop (Bitswap::run) fed by the harness: three connected peers, in-memory
+      substreams; ops (cidspec = version codec(hi lo) code(hi lo) <digest bytes>;
+      msg = has_wantlist <entries: <cid bytes> priority cancel wantType sendDontHave>
+            <payload: as in kind 1> <presences: <cid bytes> type>):
+        1 p                      a new inbound substream from peer p (replaces the old one)
+        2 p split msg            a complete frame (written in two pieces when split > 0)
+        3 p kind cut msg         the substream ends badly: 0 frame that is not protobuf, 1 frame
+                                 cut after `cut` bytes then closed, 2 length prefix above the
+                                 limit, 3 clean close, 4 reset, 5 malformed length prefix
+        4 p <cidspec wantType>   BitswapHandle::send_request
+        5 p <0 cidspec dlen | 1 cidspec presence>   BitswapHandle::send_response
+        6 p mode budget          the requested outbound substream: 0 opens and takes everything,
+                                 1 opens, takes `budget` bytes and stalls (write timeout),
+                                 2 opens, takes `budget` bytes and fails, 3 fails to open
+        7 p mode budget          the same change on the established outbound substream
+      trace:  4 nops { <events> <complete messages written> partial_bytes }*nops
+   5  presence batching through the hooked functions:  5 max_message n { cidspec presence }*n
+      trace:  5 k { <ids> message_len <decoded: <cid bytes> type> }*k *)
 From Coq Require Import List NArith Bool.
 From V.common Require Import Wire.
 From V.gen Require Consts.
@@ -68,10 +86,105 @@ Definition mk_sblock (ix : N * (N * N * N * N * N)) : sblock :=
   let '(i, (v, codec, code, dgl, dl)) := ix in
   mkSB i (mkCid v codec code (repeat 0 (N.to_nat dgl))) dl.
 
+Definition prefix_eqb (a b : prefix) : bool :=
+  (p_version a =? p_version b) && (p_codec a =? p_codec b) &&
+  (p_mhtype a =? p_mhtype b) && (p_mhlen a =? p_mhlen b).
+
+Definition cid_valid_b (c : cid) : bool :=
+  ((c_version c =? 0) && (c_codec c =? DAG_PB) && (c_code c =? SHA2_256) &&
+   (N.of_nat (length (c_digest c)) =? 32))
+  || (c_version c =? 1).
+
+
+(* ---- kinds 4 and 5: CIDs with explicit digests, messages, node operations ---- *)
+
+Definition p_cidspec : parser cid :=
+  let* v := pN in let* codec := p64 in let* code := p64 in let* dg := p_bytes in
+  let c := mkCid v codec code dg in
+  if cid_valid_b c && (N.of_nat (length dg) <=? 64) then pret c else pfail.
+
+Definition p_wl_entry : parser wl_entry :=
+  let* b := p_bytes in let* pr := pN in let* ca := pBool in let* wt := pN in let* sd := pBool in
+  pret (mkWE b pr ca wt sd).
+
+Definition p_message : parser (message payload * list oentry) :=
+  let* has := pBool in
+  let* es := plist p_wl_entry in
+  let* pl := plist p_rblock in
+  let* prs := plist (let* cb := p_bytes in let* t := pN in pret (cb, t)) in
+  pret (mkMsg (if has then Some es else None) (map (fun b => (rb_prefix b, rb_data b)) pl) prs,
+        flat_map rb_oracle pl).
+
+Definition NPEERS : N := 3.
+
+Inductive nop :=
+| NInOpen (p : N)
+| NInFrame (p : N) (m : message payload)
+| NInBad (p : N)
+| NSend (p : N) (a : action)
+| NOutOpen (p : N) (c : carrier)
+| NOutFail (p : N)
+| NOutSet (p : N) (c : carrier).
+
+Definition p_peer : parser N := let* p := pN in if p <? NPEERS then pret p else pfail.
+
+Definition p_want : parser (cid * want_type) :=
+  let* c := p_cidspec in let* w := pN in
+  match w with 0 => pret (c, WBlock) | 1 => pret (c, WHave) | _ => pfail end.
+
+(* an entry of a response: (index, block or presence) *)
+Definition p_rentry : parser (cid * (N + presence_type)) :=
+  let* tag := pN in
+  match tag with
+  | 0 => let* c := p_cidspec in let* dl := pN in pret (c, inl dl)
+  | 1 => let* c := p_cidspec in let* t := pN in
+         match t with 0 => pret (c, inr PHave) | 1 => pret (c, inr PDontHave) | _ => pfail end
+  | _ => pfail
+  end.
+
+Definition mk_response (es : list (N * (cid * (N + presence_type)))) : action :=
+  AResponse
+    (flat_map (fun ie => match snd (snd ie) with inr t => [mkSP (fst ie) (fst (snd ie)) t] | inl _ => [] end) es)
+    (flat_map (fun ie => match snd (snd ie) with inl dl => [mkSB (fst ie) (fst (snd ie)) dl] | inr _ => [] end) es).
+
+Definition p_carrier : parser (option carrier) :=    (* None = the substream fails to open *)
+  let* mode := pN in let* budget := pN in
+  match mode with
+  | 0 => pret (Some None)
+  | 1 | 2 => pret (Some (Some budget))
+  | 3 => pret None
+  | _ => pfail
+  end.
+
+Definition p_nop : parser (nop * list oentry) :=
+  let* tag := pN in
+  match tag with
+  | 1 => let* p := p_peer in pret (NInOpen p, [])
+  | 2 => let* p := p_peer in let* _ := pN in let* mo := p_message in pret (NInFrame p (fst mo), snd mo)
+  | 3 => let* p := p_peer in let* kind := pN in let* _ := pN in let* mo := p_message in
+         if kind <=? 5 then pret (NInBad p, []) else pfail
+  | 4 => let* p := p_peer in let* ws := plist p_want in pret (NSend p (ARequest ws), [])
+  | 5 => let* p := p_peer in let* es := plist p_rentry in pret (NSend p (mk_response (number 0 es)), [])
+  | 6 => let* p := p_peer in let* c := p_carrier in
+         pret (match c with Some c => NOutOpen p c | None => NOutFail p end, [])
+  | 7 => let* p := p_peer in let* c := p_carrier in
+         match c with Some c => pret (NOutSet p c, []) | None => pfail end
+  | _ => pfail
+  end.
+
+Definition p_spres : parser (cid * presence_type) :=
+  let* c := p_cidspec in let* t := pN in
+  match t with 0 => pret (c, PHave) | 1 => pret (c, PDontHave) | _ => pfail end.
+
+Definition mk_spres (ix : N * (cid * presence_type)) : spres :=
+  mkSP (fst ix) (fst (snd ix)) (snd (snd ix)).
+
 Inductive case :=
 | CRecv (l : list rblock)
 | CSend (mb mm : N) (l : list sblock)
-| CE2E (l : list sblock).
+| CE2E (l : list sblock)
+| CNode (ops : list nop) (tab : list oentry)
+| CPres (mm : N) (l : list spres).
 
 Definition decode_case (l : list N) : option case :=
   pall (let* kind := pN in
@@ -80,6 +193,8 @@ Definition decode_case (l : list N) : option case :=
         | 2 => let* mb := pN in let* mm := pN in let* bs := plist p_sblock in
                pret (CSend mb mm (map mk_sblock (number 0 bs)))
         | 3 => let* bs := plist p_sblock in pret (CE2E (map mk_sblock (number 0 bs)))
+        | 4 => let* ops := plist p_nop in pret (CNode (map fst ops) (flat_map snd ops))
+        | 5 => let* mm := pN in let* ps := plist p_spres in pret (CPres mm (map mk_spres (number 0 ps)))
         | _ => pfail
         end) l.
 
@@ -112,11 +227,103 @@ Definition run_e2e (l : list sblock) : list N :=
   enc_list (enc_list (fun x => [sb_id x]))
     (send_response_blocks Consts.BITSWAP_MAX_BATCH_SIZE Consts.BITSWAP_MAX_MESSAGE_SIZE l).
 
+
+(* ---- kind 4: the node ---- *)
+
+Definition MB : N := Consts.BITSWAP_MAX_BATCH_SIZE.
+Definition MM : N := Consts.BITSWAP_MAX_MESSAGE_SIZE.
+
+Definition enc_bytes (l : list N) : list N := enc_list (fun y => [y]) l.
+
+Definition enc_response (r : response payload) : list N :=
+  match r with
+  | RBlock c d => 0 :: enc_cid c ++ [fst d; snd d]
+  | RPresence c t => 1 :: enc_cid c ++ [presence_code t]
+  end.
+
+Definition enc_event (p : N) (e : event payload) : list N :=
+  match e with
+  | ERequest ws => 1 :: p :: enc_list (fun cw => enc_cid (fst cw) ++ [want_code (snd cw)]) ws
+  | EResponse rs => 2 :: p :: enc_list enc_response rs
+  end.
+
+(* a written message as the harness decodes it again: kind, encoded length, entries *)
+Definition enc_omsg (m : omsg) : list N :=
+  match m with
+  | ORequest ws =>
+      1 :: omsg_len m ::
+      enc_list (fun cw => enc_bytes (cid_to_bytes (fst cw)) ++ [1; 0; want_code (snd cw); 0]) ws ++ [0]
+  | OPresences l =>
+      2 :: omsg_len m ::
+      enc_list (fun x => enc_bytes (cid_to_bytes (sp_cid x)) ++ [presence_code (sp_type x)]) l
+  | OBlocks l =>
+      3 :: omsg_len m ::
+      enc_list (fun x => [sb_id x] ++ enc_bytes (sb_prefix x) ++ [sb_dlen x; 1]) l
+  end.
+
+Definition get_ps (st : list pstate) (p : N) : pstate := nth (N.to_nat p) st ps_init.
+Fixpoint set_ps (st : list pstate) (p : nat) (s : pstate) : list pstate :=
+  match st, p with
+  | [], _ => []
+  | _ :: t, O => s :: t
+  | h :: t, S q => h :: set_ps t q s
+  end.
+
+Definition node_step (tab : list oentry) (st : list pstate) (o : nop)
+  : list pstate * (list N (* events, encoded *) * written) :=
+  match o with
+  | NInOpen p =>
+      let s := get_ps st p in
+      (set_ps st (N.to_nat p) (mkPS true (ps_out s) (ps_pend s) (ps_opening s)), ([0], ([], 0)))
+  | NInFrame p m =>
+      let s := get_ps st p in
+      if ps_inb s
+      then (st, (enc_list (enc_event p) (msg_events payload (digest_of tab) m), ([], 0)))
+      else (st, ([0], ([], 0)))
+  | NInBad p =>
+      let s := get_ps st p in
+      (set_ps st (N.to_nat p) (mkPS false (ps_out s) (ps_pend s) (ps_opening s)), ([0], ([], 0)))
+  | NSend p a =>
+      let '(s', w) := send_action MB MM (get_ps st p) a in
+      (set_ps st (N.to_nat p) s', ([0], w))
+  | NOutOpen p c =>
+      let '(s', w) := outbound_opened MB MM (get_ps st p) c in
+      (set_ps st (N.to_nat p) s', ([0], w))
+  | NOutFail p =>
+      (set_ps st (N.to_nat p) (outbound_failed (get_ps st p)), ([0], ([], 0)))
+  | NOutSet p c =>
+      let s := get_ps st p in
+      (set_ps st (N.to_nat p)
+         (mkPS (ps_inb s) (match ps_out s with Some _ => Some c | None => None end) (ps_pend s) (ps_opening s)),
+       ([0], ([], 0)))
+  end.
+
+Fixpoint run_node (tab : list oentry) (st : list pstate) (ops : list nop) : list N :=
+  match ops with
+  | [] => []
+  | o :: t =>
+      let '(st', (evs, (done, part))) := node_step tab st o in
+      evs ++ enc_list enc_omsg done ++ [part] ++ run_node tab st' t
+  end.
+
+(* ---- kind 5: presence batching ---- *)
+
+Definition enc_pbatch (b : list spres) : list N :=
+  enc_list (fun x => [sp_id x]) b ++
+  [match b with [] => 0 | _ => message_len spres sp_elen b end] ++
+  enc_list (fun x => enc_bytes (cid_to_bytes (sp_cid x)) ++ [presence_code (sp_type x)]) b.
+
+Definition run_pres (mm : N) (l : list spres) : list N :=
+  enc_list enc_pbatch (all_batches spres (fun _ => 0) sp_elen 0 mm l).
+
 Definition run_case (l : list N) : list N :=
   match decode_case l with
   | Some (CRecv bs) => 1 :: N.of_nat (length bs) :: run_recv bs
   | Some (CSend mb mm bs) => 2 :: run_send mb mm bs
   | Some (CE2E bs) => 3 :: run_e2e bs
+  | Some (CNode ops tab) =>
+      4 :: N.of_nat (length ops) :: run_node tab [ps_init; ps_init; ps_init] ops
+  | Some (CPres mm l) => 5 :: run_pres mm l
   | None => [0]
   end.
 
@@ -143,15 +350,6 @@ Definition p_obatch : parser obatch :=
   pret (mkOB ids len es).
 
 (* ---- the oracle ---- *)
-
-Definition prefix_eqb (a b : prefix) : bool :=
-  (p_version a =? p_version b) && (p_codec a =? p_codec b) &&
-  (p_mhtype a =? p_mhtype b) && (p_mhlen a =? p_mhlen b).
-
-Definition cid_valid_b (c : cid) : bool :=
-  ((c_version c =? 0) && (c_codec c =? DAG_PB) && (c_code c =? SHA2_256) &&
-   (N.of_nat (length (c_digest c)) =? 32))
-  || (c_version c =? 1).
 
 (* One received block, judged on what the implementation reported for it. *)
 Definition recv_ok (tab : list oentry) (b : rblock) (res : option (cid * payload)) : bool :=
@@ -228,6 +426,174 @@ Definition batch_ok (mb mm : N) (l : list sblock) (b : obatch) : bool :=
 Definition fit_ids (mb mm : N) (l : list sblock) : list N :=
   map sb_id (filter (fits sblock sb_dlen sb_elen mb mm) l).
 
+(* ---- kinds 4 and 5: decoding traces and judging them ---- *)
+
+Definition p_cid_enc : parser cid :=
+  let* v := pN in let* codec := p64 in let* code := p64 in let* dg := plist pN in
+  pret (mkCid v codec code dg).
+
+Definition p_response : parser (response payload) :=
+  let* tag := pN in
+  match tag with
+  | 0 => let* c := p_cid_enc in let* did := pN in let* dl := pN in pret (RBlock c (did, dl))
+  | 1 => let* c := p_cid_enc in let* t := pN in
+         match t with 0 => pret (RPresence c PHave) | 1 => pret (RPresence c PDontHave) | _ => pfail end
+  | _ => pfail
+  end.
+
+Definition p_event : parser (N * event payload) :=
+  let* tag := pN in
+  match tag with
+  | 1 => let* p := pN in
+         let* ws := plist (let* c := p_cid_enc in let* w := pN in
+                           match w with 0 => pret (c, WBlock) | 1 => pret (c, WHave) | _ => pfail end) in
+         pret (p, ERequest ws)
+  | 2 => let* p := pN in let* rs := plist p_response in pret (p, EResponse rs)
+  | _ => pfail
+  end.
+
+Inductive wmsg :=
+| WRequest (len : N) (es : list wl_entry) (full : N)
+| WPresences (len : N) (ps : list (list N * N))
+| WBlocks (len : N) (bs : list (N * list N * N * N)).
+
+Definition p_wmsg : parser wmsg :=
+  let* tag := pN in
+  match tag with
+  | 1 => let* len := pN in let* es := plist p_wl_entry in let* full := pN in pret (WRequest len es full)
+  | 2 => let* len := pN in let* ps := plist (let* b := plist pN in let* t := pN in pret (b, t)) in
+         pret (WPresences len ps)
+  | 3 => let* len := pN in
+         let* bs := plist (let* i := pN in let* pb := plist pN in let* dl := pN in let* ok := pN in
+                           pret (i, pb, dl, ok)) in
+         pret (WBlocks len bs)
+  | _ => pfail
+  end.
+
+Definition p_opout : parser (list (N * event payload) * list wmsg * N) :=
+  let* evs := plist p_event in let* ws := plist p_wmsg in let* part := pN in pret (evs, ws, part).
+
+Definition cid_beqb (a b : cid) : bool := cid_eqb a b.
+
+Definition response_eqb (a b : response payload) : bool :=
+  match a, b with
+  | RBlock c d, RBlock c' d' => cid_eqb c c' && pay_eqb d d'
+  | RPresence c t, RPresence c' t' => cid_eqb c c' && (presence_code t =? presence_code t')
+  | _, _ => false
+  end.
+
+Definition event_eqb (a b : event payload) : bool :=
+  match a, b with
+  | ERequest ws, ERequest ws' =>
+      list_eqb (fun x y : cid * want_type => cid_eqb (fst x) (fst y) && (want_code (snd x) =? want_code (snd y))) ws ws'
+  | EResponse rs, EResponse rs' => list_eqb response_eqb rs rs'
+  | _, _ => false
+  end.
+
+(* a delivered block is one of the frame's payload entries, certified against the oracle *)
+Definition block_certified (tab : list oentry) (m : message payload) (c : cid) (d : payload) : bool :=
+  existsb (fun pd : list N * payload =>
+             pay_eqb (snd pd) d &&
+             match prefix_from_bytes (fst pd) with
+             | None => false
+             | Some p =>
+                 (c_version c =? p_version p) && (c_codec c =? p_codec p) && (c_code c =? p_mhtype p)
+             end) (m_payload m) &&
+  opt_eqb nlist_eqb (digest_of tab (c_code c) d) (Some (c_digest c)) &&
+  cid_valid_b c && (N.of_nat (length (c_digest c)) <=? 64).
+
+Definition event_certified (tab : list oentry) (m : message payload) (e : event payload) : bool :=
+  match e with
+  | ERequest _ => true
+  | EResponse rs =>
+      forallb (fun r => match r with RBlock c d => block_certified tab m c d | RPresence _ _ => true end) rs
+  end.
+
+(* a written message respects the limits and is well-formed *)
+Definition wmsg_ok (w : wmsg) : bool :=
+  match w with
+  | WRequest len es full =>
+      (1 <=? len) && (len <=? MM) && (full =? 0) &&
+      forallb (fun e => match cid_read_bytes (we_block e) with Some _ => true | None => false end &&
+                        (we_priority e =? 1) && negb (we_cancel e) && (we_wanttype e <=? 1) &&
+                        negb (we_senddonthave e)) es
+  | WPresences len ps =>
+      (1 <=? len) && (len <=? MM) && negb (match ps with [] => true | _ => false end) &&
+      forallb (fun bt : list N * N =>
+                 match cid_read_bytes (fst bt) with Some _ => true | None => false end && (snd bt <=? 1)) ps
+  | WBlocks len bs =>
+      (1 <=? len) && (len <=? MM) && negb (match bs with [] => true | _ => false end) &&
+      (sum (map (fun b : N * list N * N * N => snd (fst b)) bs) <=? MB) &&
+      forallb (fun b : N * list N * N * N =>
+                 match prefix_from_bytes (snd (fst (fst b))) with Some _ => true | None => false end &&
+                 (snd b =? 1)) bs
+  end.
+
+Fixpoint set_nth_b (l : list bool) (p : nat) (b : bool) : list bool :=
+  match l, p with
+  | [], _ => []
+  | _ :: t, O => b :: t
+  | h :: t, S q => h :: set_nth_b t q b
+  end.
+
+(* Judging a node trace op by op; `inb` is which peers have an inbound substream, known from
+   the ops alone.  Events may only come from complete decodable frames on an open substream and
+   must be the ones the frame denotes, with every block certified; everything written must be
+   a well-formed message within the limits. *)
+Fixpoint node_ok (tab : list oentry) (inb : list bool) (ops : list nop)
+         (outs : list (list (N * event payload) * list wmsg * N)) : bool :=
+  match ops, outs with
+  | [], [] => true
+  | o :: ops', (evs, ws, part) :: outs' =>
+      forallb wmsg_ok ws &&
+      match o with
+      | NInOpen p =>
+          match evs, ws with [], [] => (part =? 0) | _, _ => false end &&
+          node_ok tab (set_nth_b inb (N.to_nat p) true) ops' outs'
+      | NInBad p =>
+          (* no partial delivery *)
+          match evs, ws with [], [] => (part =? 0) | _, _ => false end &&
+          node_ok tab (set_nth_b inb (N.to_nat p) false) ops' outs'
+      | NInFrame p m =>
+          match ws with [] => (part =? 0) | _ => false end &&
+          (if nth (N.to_nat p) inb false
+           then forallb (fun pe : N * event payload => (fst pe =? p) && event_certified tab m (snd pe)) evs &&
+                list_eqb event_eqb (map snd evs) (msg_events payload (digest_of tab) m)
+           else match evs with [] => true | _ => false end) &&
+          node_ok tab inb ops' outs'
+      | NSend _ _ | NOutOpen _ _ =>
+          match evs with [] => true | _ => false end && node_ok tab inb ops' outs'
+      | NOutFail _ | NOutSet _ _ =>
+          match evs, ws with [], [] => (part =? 0) | _, _ => false end && node_ok tab inb ops' outs'
+      end
+  | _, _ => false
+  end.
+
+Record opbatch := mkOPB { opb_ids : list N; opb_len : N; opb_entries : list (list N * N) }.
+
+Definition p_opbatch : parser opbatch :=
+  let* ids := plist pN in let* len := pN in
+  let* es := plist (let* b := plist pN in let* t := pN in pret (b, t)) in
+  pret (mkOPB ids len es).
+
+Definition find_sp (l : list spres) (i : N) : option spres := nth_error l (N.to_nat i).
+
+Fixpoint pentries_ok (l : list spres) (ids : list N) (es : list (list N * N)) : bool :=
+  match ids, es with
+  | [], [] => true
+  | i :: ids', e :: es' =>
+      match find_sp l i with
+      | None => false
+      | Some x => opt_eqb cid_eqb (cid_read_bytes (fst e)) (Some (sp_cid x)) &&
+                  (snd e =? presence_code (sp_type x))
+      end && pentries_ok l ids' es'
+  | _, _ => false
+  end.
+
+Definition pbatch_ok (mm : N) (l : list spres) (b : opbatch) : bool :=
+  negb (match opb_ids b with [] => true | _ => false end) &&
+  (1 <=? opb_len b) && (opb_len b <=? mm) && pentries_ok l (opb_ids b) (opb_entries b).
+
 Definition prop_ok (case trace : list N) : bool :=
   match decode_case case, trace with
   | Some (CRecv bs), 1 :: n :: body =>
@@ -257,6 +623,19 @@ Definition prop_ok (case trace : list N) : bool :=
                                sum (map (fun i => match find_sb l i with
                                                   | Some b => sb_elen b | None => 0 end) ids) <=? mm))
                   evs
+      | None => false
+      end
+  | Some (CNode ops tab), 4 :: n :: body =>
+      match pall (prep (length ops) p_opout) body with
+      | Some outs => (n =? N.of_nat (length ops)) && node_ok tab [false; false; false] ops outs
+      | None => false
+      end
+  | Some (CPres mm l), 5 :: body =>
+      match pall (plist p_opbatch) body with
+      | Some obs =>
+          nlist_eqb (concat (map opb_ids obs))
+                    (map sp_id (filter (fits spres (fun _ => 0) sp_elen 0 mm) l)) &&
+          forallb (pbatch_ok mm l) obs
       | None => false
       end
   | None, [0] => true
